@@ -552,7 +552,9 @@ func ruleProgressFileLoop(r *Report) {
 		if c, neg := stripNot(hdr.Cond); neg || c.(*ssa.BinOp).Op == token.EQL {
 			enter = Edge{hdr.Block(), 1}
 		}
-		reach, path := Search{Fn: fn, FromEdge: &enter, Target: isInstr(hdr), Avoid: anyOf(work), AvoidEdges: mkEdgeSet(allowed)}.Run()
+		// the work may sit in a helper shared with a sibling loop (Search walks through it): match by callee
+		isWork := isCallNamed(s.work...)
+		reach, path := Search{Fn: fn, FromEdge: &enter, Target: isInstr(hdr), Avoid: func(in ssa.Instruction) bool { return work[in] || isWork(in) }, AvoidEdges: mkEdgeSet(allowed)}.Run()
 		if reach {
 			r.BadPath(rule, key+"/every-file-processed", hdr.Pos(), "the collector can pass over a file without processing it and without a stated reason (already visited / still referenced / unreadable / already empty): that file is never reclaimed however many cycles run", path)
 		} else {
@@ -642,7 +644,8 @@ func ruleProgressUnlink(r *Report) {
 				}
 			}
 			target := func(in ssa.Instruction) bool { return in == ssa.Instruction(c) || isReturn(in) }
-			reach, path := Search{Fn: fn, From: c, Target: target, Avoid: anyOf(removes), AvoidEdges: mkEdgeSet(allowed)}.Run()
+			isRemove := isCallNamed("os.Remove")
+			reach, path := Search{Fn: fn, From: c, Target: target, Avoid: func(in ssa.Instruction) bool { return removes[in] || isRemove(in) }, AvoidEdges: mkEdgeSet(allowed)}.Run()
 			if reach {
 				r.BadPath(rule, key, c.Pos(), "a file that was reaped empty and is the header's first file can be left in place (the pass moves on without unlinking it): the oldest file is never released", path)
 			} else {
@@ -943,7 +946,27 @@ func ruleProgressLowUse(r *Report) {
 					op = map[token.Token]token.Token{token.GTR: token.LSS, token.LSS: token.GTR, token.GEQ: token.LEQ, token.LEQ: token.GEQ}[op]
 				}
 				_ = whole
-				if op != token.GEQ && op != token.GTR {
+				// the edge on which relocation happens: 100*free >= percent*(…) — either polarity of the test
+				if ifb := condBlockOf(fn, cond); ifb != nil {
+					leads := func(b *ssa.BasicBlock) bool {
+						for _, p := range puts {
+							if b.Dominates(p.Block()) {
+								return true
+							}
+						}
+						return false
+					}
+					onTrue, onFalse := leads(ifb.Succs[0]), leads(ifb.Succs[1])
+					if neg := condNegated(ifb); neg {
+						onTrue, onFalse = onFalse, onTrue
+					}
+					switch {
+					case (op == token.GEQ || op == token.GTR) && onTrue && !onFalse:
+					case (op == token.LSS || op == token.LEQ) && onFalse && !onTrue:
+					default:
+						thresholdOK = false
+					}
+				} else if op != token.GEQ && op != token.GTR {
 					thresholdOK = false
 				}
 				if m, ok := stripIntConv(free).(*ssa.BinOp); !ok || m.Op != token.MUL {
@@ -1208,4 +1231,25 @@ func init() {
 			"cancel-not-completion", "completion", "reap-true-means-empty", "bucket-scan-covers", "mark-file-matches", "scan-complete-before-truncate", "go-handshake", "config-wiring", "primary-mark", "flush-nowork", "race", "handover-owners", "errors-not-dropped"})
 	},
 		"Decides only the SHAPE progress of the collectors rests on, each rule a necessary condition (if it is violated some history ending in files without live data is never reclaimed however many cycles run): the supervisors re-arm their timer after every finished cycle and every cycle calls the collector and signals completion; files in which the freelist pass marked records leave the visited set, and deleteRecords records every file it marked in; the three file loops start at the header's first file (or the resume point), advance by one file and pass over a file only for a stated reason (visited / still referenced / unreadable / already empty); an empty oldest file is unlinked in the same pass; zero-length files and files cut at offset 0 are reported empty; a completed scan that found a trailing free span truncates; unreferenced index records are marked in the same pass; relocation of the last live records is skipped only for the stated reasons and the low-use test has the form 100*free >= percent*(...); an index pass stopped by the time limit records and later uses its resume point. NOT decided: the number of cycles, byte counts, the fixed point, 'GC never increases storage', or that these shapes suffice for progress.")
+}
+
+// condBlockOf: the block whose If tests cond (possibly negated).
+func condBlockOf(fn *ssa.Function, cond ssa.Value) *ssa.BasicBlock {
+	for _, b := range fn.Blocks {
+		if ifi, ok := lastInstr(b).(*ssa.If); ok {
+			if c, _ := stripNot(ifi.Cond); c == cond {
+				return b
+			}
+		}
+	}
+	return nil
+}
+
+func condNegated(b *ssa.BasicBlock) bool {
+	ifi, ok := lastInstr(b).(*ssa.If)
+	if !ok {
+		return false
+	}
+	_, neg := stripNot(ifi.Cond)
+	return neg
 }
